@@ -751,6 +751,11 @@ func (p *Prog) RunGate(g *Gate) GateResult {
 		if len(loops) == 0 && res.Tested > 0 {
 			res.Violations = append(res.Violations, "ForEach check is not inside a loop")
 		}
+		if res.CheckSites > 0 && res.Tested == 0 && run.tails == 0 {
+			// e.g. `if err != nil { continue }` at the end of a loop body: both branches continue, go/ssa drops the branch,
+			// and the check decides nothing
+			res.Violations = append(res.Violations, fmt.Sprintf("the result of [%s] is computed but no branch tests it: every element passes", g.Check.Desc))
+		}
 	}
 	reach := Reach(entry, removed, blocked)
 	effectHitFrom := func(start *ssa.BasicBlock, r map[*ssa.BasicBlock]bool, e effSite, rem EdgeSet, blk map[*ssa.BasicBlock]bool) bool {
